@@ -1,5 +1,6 @@
 """C16 (engine GRP) - see RULE."""
 from vlib.engines import grp
+from vlib import tracefuzz
 from vlib.engines.base import drive, run_trace
 
 PROP = "C16"
@@ -16,13 +17,15 @@ class Eng(grp.GRPEngine):
 
 def shard(ctx):
     drive(ctx, Eng, ctx.n(16 * 250, 16 * 4000), min_steps=6, max_steps=80, props={"C16"})
+    # coverage-guided trace search (atheris driving the same Hypothesis driver, fuzz/traces.py)
+    tracefuzz.run(ctx, "c16", 120 if ctx.tier == "quick" else 6000, nshards=2 if ctx.tier == "quick" else 4)
 
 
 def replay(case, ctx):
     run_trace(Eng, case, ctx, props={"C16"})
 
 
-TECHNIQUE = "stateful property-based testing of the real ConsumerGroup (Coordinator + partition Consumers) + KafkaClient + codec on a simulated cluster with a group-coordinator model (vlib/simgroup.py, written from Kafka's documented state machine) and harness-driven ghost members; Hypothesis draws rebalance histories, reply/timer orders, error codes on any group request, held replies, connection and broker faults, processor behaviour and stop points; ddmin-shrunk JSON traces"
+TECHNIQUE = "stateful property-based testing of the real ConsumerGroup (Coordinator + partition Consumers) + KafkaClient + codec on a simulated cluster with a group-coordinator model (vlib/simgroup.py, written from Kafka's documented state machine) and harness-driven ghost members; Hypothesis draws rebalance histories, reply/timer orders, error codes on any group request, held replies, connection and broker faults, processor behaviour and stop points; ddmin-shrunk JSON traces; plus coverage-guided fuzzing of the same trace driver (atheris/libFuzzer mutating Hypothesis' choice sequence; fuzz/traces.py)"
 RULE = (
     "traces over one ConsumerGroup member (1-2 topics x 1-3 partitions, session 6/30 s, heartbeat 1/2 s, backoffs 0.3-1 / 0.1 / 1.5-10 s, auto-commit every n / ms) on a 1-2 broker simulated cluster whose group coordinator is a model of Kafka's Empty/PreparingRebalance/AwaitingSync/Stable machine with session and rebalance timers; 0-3 ghost members join, leave, die (session expiry) or stall their rejoin, a ghost leader deals assignments with a drawn rotation so partitions move; steps: start, deliver/hold a reply, fire a timer, wait, append, complete an async processor call, error codes on join/sync/heartbeat/commit/lookup/offset-fetch/fetch, held replies, connection drops, brokers down/up, coordinator and leader moves, stop. oracle (wire, call outcomes, processor entries, model ledger): between this member's JoinGroup write and the success of the SyncGroup of that exchange no Fetch/ListOffsets/OffsetFetch/OffsetCommit for group partitions is written and the processor is not entered (so consumers of the previous generation - also after an eviction - are down before any rejoin); at a rejoin that follows an undisturbed generation the offset store holds the last successfully processed offset of every assigned partition unless a commit was rejected, failed or is unanswered; consumer traffic and processor entries concern only partitions of the assignment parsed (independent parser) from the member's current SyncGroup reply; the first Fetch of a partition in a generation is at the committed offset delivered to the member + 1 (or inside the log when none is stored); every OffsetCommit carries generation and member id of the latest successful JoinGroup result; at most one JoinGroup/SyncGroup call is pending; a Heartbeat is written only between the successful sync of the generation it names and the next JoinGroup write / failed heartbeat, naming the current member; after the Deferred returned by stop() has fired no JoinGroup/SyncGroup/Heartbeat is written, no consumer activity occurs and no delayed call remains. non-trivial = a second generation after the member consumed in the first, an eviction while consuming, progress committed before a rejoin, an assignment that changed across generations, or a rejoin with commit trouble; distinct = distinct trace."
 )
